@@ -386,6 +386,20 @@ struct SetOps {
   static long live_expected(const S &s) { return (long)s.size() * vf::ObjsPer<T>::value; }
 };
 
+/// a FlatSet whose comparator object carries state that a default-constructed comparator does not have (descending
+/// order): every path that rebuilds the set from scratch instead of assigning into it shows as a changed order
+struct DirCmp {
+  bool desc;
+  explicit DirCmp(bool d = false) : desc(d) {}
+  bool operator()(int a, int b) const { return desc ? b < a : a < b; }
+};
+typedef amc::FlatSet<int, DirCmp> DescSetBase;
+struct DescSet : DescSetBase {
+  typedef DescSetBase Base;
+  DescSet() : Base(::DirCmp(true)) {}  // (FlatSet derives privately from its comparator: the injected name is inaccessible)
+  using Base::operator=;
+};
+
 // ---- enumeration -------------------------------------------------------------------------------------------------------
 static std::string g_want_cont, g_want_first;
 struct Bucket {
@@ -519,6 +533,7 @@ int main(int argc, char **argv) {
   enumerate_type<S1, SetOps<S1, true> >("flatset_int", depth);
   enumerate_type<S2, SetOps<S2, true> >("flatset_TR_greater_smallvector2", depth);
   enumerate_type<S3, SetOps<S3, true> >("flatset_NTR", depth);
+  enumerate_type<DescSet, SetOps<DescSet, true> >("flatset_int_descending_state", depth);
 #ifdef AMC_SMALLSET
   if (g_allowed & F_CXX17) {
     typedef amc::SmallSet<int, 2> Q1;
